@@ -17,6 +17,7 @@ import common
 import coreops
 import fbagen
 import lpcert
+import auxcorr
 
 logging.disable(logging.CRITICAL)
 common.ensure_repo_on_path()
@@ -179,6 +180,30 @@ def public(case):
     return {k: v for k, v in case.items() if not k.startswith("_")}
 
 
+def aux_stage(ctx):
+    """The LP-7 problems of fastcc (before / after the flip) and the FVA steps at fraction 0 that find_blocked_reactions relies on, vs the Lean
+    builders; returns oracle cases on the models where they differ."""
+    def f_lp7(flip):
+        def f(make, spec, rng):
+            m = make()
+            sub = [r.id for r in m.reactions if rng.random() < 0.6] or [m.reactions[0].id]
+            return auxcorr.pairs_fastcc(m, sub, rng.choice([1.0, 1.0, 0.5, 2.0]), flip)
+        return f
+
+    def f_fva0(make, spec, rng):
+        m = make()
+        from optlang.symbolics import Zero
+        m.objective = Zero          # as find_blocked_reactions does before it calls FVA
+        rids = [r.id for r in m.reactions]
+        return auxcorr.pairs_fva(m, 0.0, reaction_list=rng.sample(rids, rng.randint(1, len(rids))))
+    mism = auxcorr.stage(ctx, [("fastcc LP-7", f_lp7(False)), ("fastcc LP-7 flipped", f_lp7(True)), ("FVA at fraction 0", f_fva0)], gen_spec, ctx.scale(40, 500))
+    cases = []
+    for mm in mism[:6]:
+        kind = "fastcc" if "fastcc" in mm["label"] else "blocked"
+        cases.append({"kind": kind, "spec": mm["spec"], "pre": None, "open_exchanges": False, "reaction_list": None, "as_objects": False})
+    return cases
+
+
 def run(ctx):
     if getattr(ctx, "replay", None):
         data = json.loads(open(ctx.replay).read())
@@ -190,14 +215,15 @@ def run(ctx):
                 print(f"VIOLATION property=C19 replay={ctx.replay}")
                 return 1
         return 0
-    common.proof_stage(ctx, "CobraModel.Props.C19", extra_scan=["CobraModel/Lemmas/Formulations.lean", "CobraModel/Lemmas/LP.lean"])
+    common.proof_stage(ctx, "CobraModel.Props.C19", extra_scan=["CobraModel/Lemmas/Formulations.lean", "CobraModel/Lemmas/LP.lean"] + auxcorr.SCAN)
+    directed = aux_stage(ctx)
     rng = ctx.rng
     n = ctx.scale(200, 5000)
     ran, tries = 0, 0
     skipped, kinds = {}, {"blocked": 0, "fastcc": 0, "open_exchanges": 0, "fastcc_known_drops": 0}
     distinct = set()
     samples = []
-    corpus = common.load_corpus("C19")
+    corpus = directed + common.load_corpus("C19")
     while ran < n and tries < n * 3 and not ctx.violations:
         tries += 1
         case = corpus.pop(0) if corpus else gen_case(rng)
